@@ -439,8 +439,8 @@ class Unit:
     def use(self, line):
         self.header.append(line)
 
-    def raw(self, text, origin):
-        self.parts.append(("raw", text.rstrip("\n").split("\n"), origin))
+    def raw(self, text, origin, tags=None):
+        self.parts.append(("raw", text.rstrip("\n").split("\n"), origin, frozenset(tags) if tags else None))
 
     def spec(self, relfile):
         p = f"{self.verif}/spec/{relfile}"
@@ -481,6 +481,8 @@ class Unit:
         org.append(("header",))
         for p in self.parts:
             if p[0] == "raw":
+                if view is not None and len(p) > 3 and p[3] is not None and view not in p[3]:
+                    continue
                 for k, l in enumerate(p[1]):
                     out.append(l)
                     org.append(p[2])
